@@ -139,6 +139,13 @@ def run_poll(world, rows, profile, client=None, role="primary", shared_args=None
         if shared_args is not None:
             shared_args["preprocessed"] = pre
             shared_args["config"] = cfg
+    # model_parameters: a fresh copy per poll, unless the caller re-uses its argument objects (then the very same dict
+    # is passed again, as a long-running pipeline would); `omit_model_parameters` exercises the keyword's default
+    if shared_args is not None:
+        mparams = shared_args.setdefault("model_parameters", copy.deepcopy(p["model_parameters"]))
+    else:
+        mparams = copy.deepcopy(p["model_parameters"])
+    extra_kw = {} if p.get("omit_model_parameters") else dict(model_parameters=mparams)
     cur = feed_frame(rows, extra_feed_cols)
     bucket = seams.STORAGE.bucket
     put0 = len(bucket.put_log)
@@ -163,7 +170,7 @@ def run_poll(world, rows, profile, client=None, role="primary", shared_args=None
                     geographic_unit_type=world["unit_type"],
                     raw_config=cfg,
                     preprocessed_data=pre,
-                    model_parameters=copy.deepcopy(p["model_parameters"]),
+                    **extra_kw,
                     **client_kwargs(p),
                 )
                 rec.tables = {k: v.copy() for k, v in res.items()}
